@@ -4,6 +4,7 @@ import (
 	"fmt"
 	"go/ast"
 	"go/types"
+	"math/big"
 )
 
 // Trusted contracts of math/big over ghost mathematical values:
@@ -59,22 +60,22 @@ func init() {
 	reg("math/big.NewInt", func(v *FnV, st *State, call *ast.CallExpr, recv *Value, args []Value) []Value {
 		trust(v)
 		ref := v.alloc(st, "bigint")
-		v.setBigInt(st, ref, args[0].S)
+		v.setBigInt(st, ref, v.mathInt(args[0]))
 		return []Value{{T: bigIntT(v), S: ref}}
 	})
 	reg("math/big.NewRat", func(v *FnV, st *State, call *ast.CallExpr, recv *Value, args []Value) []Value {
 		trust(v)
-		v.safety(st, "call:NewRat", call, sNot(sEq(args[1].S, "0")), "big.NewRat: denominator must not be zero")
+		v.safety(st, "call:NewRat", call, sNot(sEq(v.mathInt(args[1]), "0")), "big.NewRat: denominator must not be zero")
 		ref := v.alloc(st, "bigrat")
-		v.setBigRat(st, ref, sx("/", sx("to_real", args[0].S), sx("to_real", args[1].S)))
+		v.setBigRat(st, ref, sx("/", sx("to_real", v.mathInt(args[0])), sx("to_real", v.mathInt(args[1]))))
 		return []Value{{T: bigRatT(v), S: ref}}
 	})
 	// ---- *big.Int ----
 	regPure("math/big.Int.Sign", func(v *FnV, st *State, call *ast.CallExpr, recv *Value, args []Value) []Value {
-		return []Value{{T: tInt, S: sSign(v.bigInt(st, recv.S), "0")}}
+		return []Value{v.goInt(tInt, sSign(v.bigInt(st, recv.S), "0"))}
 	})
 	regPure("math/big.Int.Cmp", func(v *FnV, st *State, call *ast.CallExpr, recv *Value, args []Value) []Value {
-		return []Value{{T: tInt, S: sSign(sx("-", v.bigInt(st, recv.S), v.bigInt(st, args[0].S)), "0")}}
+		return []Value{v.goInt(tInt, sSign(sx("-", v.bigInt(st, recv.S), v.bigInt(st, args[0].S)), "0"))}
 	})
 	regPure("math/big.Int.IsInt64", func(v *FnV, st *State, call *ast.CallExpr, recv *Value, args []Value) []Value {
 		x := v.bigInt(st, recv.S)
@@ -82,7 +83,7 @@ func init() {
 	})
 	regPure("math/big.Int.Int64", func(v *FnV, st *State, call *ast.CallExpr, recv *Value, args []Value) []Value {
 		// undefined when it does not fit: low 64 bits
-		return []Value{{T: types.Typ[types.Int64], S: sx("wrap64", v.bigInt(st, recv.S))}}
+		return []Value{v.goInt(types.Typ[types.Int64], sx("wrap64", v.bigInt(st, recv.S)))}
 	})
 	intBin := func(name string, f func(a, b string) string, nonzero bool) {
 		reg("math/big.Int."+name, func(v *FnV, st *State, call *ast.CallExpr, recv *Value, args []Value) []Value {
@@ -118,11 +119,11 @@ func init() {
 	intUn("Abs", func(a string) string { return sIte(sLt(a, "0"), sx("-", a), a) })
 	intUn("Set", func(a string) string { return a })
 	reg("math/big.Int.SetInt64", func(v *FnV, st *State, call *ast.CallExpr, recv *Value, args []Value) []Value {
-		v.setBigInt(st, recv.S, args[0].S)
+		v.setBigInt(st, recv.S, v.mathInt(args[0]))
 		return []Value{*recv}
 	})
 	reg("math/big.Int.SetUint64", func(v *FnV, st *State, call *ast.CallExpr, recv *Value, args []Value) []Value {
-		v.setBigInt(st, recv.S, args[0].S)
+		v.setBigInt(st, recv.S, v.mathInt(args[0]))
 		return []Value{*recv}
 	})
 	reg("math/big.Int.Exp", func(v *FnV, st *State, call *ast.CallExpr, recv *Value, args []Value) []Value {
@@ -137,10 +138,10 @@ func init() {
 	})
 	// ---- *big.Rat ----
 	regPure("math/big.Rat.Sign", func(v *FnV, st *State, call *ast.CallExpr, recv *Value, args []Value) []Value {
-		return []Value{{T: tInt, S: sSign(v.bigRat(st, recv.S), "0.0")}}
+		return []Value{v.goInt(tInt, sSign(v.bigRat(st, recv.S), "0.0"))}
 	})
 	regPure("math/big.Rat.Cmp", func(v *FnV, st *State, call *ast.CallExpr, recv *Value, args []Value) []Value {
-		return []Value{{T: tInt, S: sSign(sx("-", v.bigRat(st, recv.S), v.bigRat(st, args[0].S)), "0.0")}}
+		return []Value{v.goInt(tInt, sSign(sx("-", v.bigRat(st, recv.S), v.bigRat(st, args[0].S)), "0.0"))}
 	})
 	regPure("math/big.Rat.IsInt", func(v *FnV, st *State, call *ast.CallExpr, recv *Value, args []Value) []Value {
 		return []Value{{T: tBool, S: sx("is_int", v.bigRat(st, recv.S))}}
@@ -200,7 +201,7 @@ func init() {
 		return []Value{*recv}
 	})
 	reg("math/big.Rat.SetInt64", func(v *FnV, st *State, call *ast.CallExpr, recv *Value, args []Value) []Value {
-		v.setBigRat(st, recv.S, sx("to_real", args[0].S))
+		v.setBigRat(st, recv.S, sx("to_real", v.mathInt(args[0])))
 		return []Value{*recv}
 	})
 	reg("math/big.Rat.SetFrac", func(v *FnV, st *State, call *ast.CallExpr, recv *Value, args []Value) []Value {
@@ -210,4 +211,34 @@ func init() {
 		return []Value{*recv}
 	})
 	_ = fmt.Sprint
+}
+
+// mathInt converts a Go integer value to a mathematical integer term (identity
+// in Int mode; signed/unsigned bit-vector interpretation in bv mode).
+func (v *FnV) mathInt(a Value) string {
+	if !v.c.bv || a.T == nil || !isIntType(a.T) {
+		return a.S
+	}
+	bits, signed := intInfo(a.T)
+	if bits == 0 {
+		bits, signed = 64, true
+	}
+	n := sx("bv2nat", a.S)
+	if signed {
+		p := new(big.Int).Lsh(big.NewInt(1), uint(bits)).String()
+		n = sIte(sx("bvslt", a.S, bvLit(0, bits)), sx("-", n, p), n)
+	}
+	return n
+}
+
+// goInt converts a mathematical integer term (already within range) to a Go integer value of type t.
+func (v *FnV) goInt(t types.Type, term string) Value {
+	if !v.c.bv {
+		return Value{T: t, S: term}
+	}
+	bits, _ := intInfo(t)
+	if bits == 0 {
+		bits = 64
+	}
+	return Value{T: t, S: fmt.Sprintf("((_ int2bv %d) %s)", bits, term)}
 }
